@@ -316,6 +316,15 @@ func c06(c *Ctx) {
 			return ok && pr.Parent() == nm && types.IsInterface(pr.Type())
 		})
 	}
+	// the receiver description a method mocker was constructed with is never replaced afterwards: the cached template is
+	// shared by every method looked up through it
+	if structFld != nil {
+		for _, fs := range storesToField(p.FuncsIn(""), func(fv *types.Var, _ ssa.Value) bool { return fv == structFld }) {
+			_, fresh := fs.Addr.X.(*ssa.Alloc)
+			r.Check(fresh, "C06.R5", "receiver description assigned only at construction ("+shortName(fs.Fn)+")", p.Pos(posOf(fs.Store)), "stored into a freshly allocated mocker",
+				"the struct a method mocker addresses is replaced after construction: later lookups through the same cached mocker resolve their methods on the replaced receiver (e.g. the pointer type's wrapper instead of the value method)")
+		}
+	}
 	for _, abm := range abms {
 		passThrough(abm, "internal/proxy", "Method", 0, 1, func(v ssa.Value) bool {
 			c, ok := v.(*ssa.Call)
